@@ -123,7 +123,7 @@ Land(p, opname, code) ==
    /\ pc' = (IF p \in {"fin", "failed", "refused"} THEN "idle" ELSE p)
    /\ lastop' = Op(opname, <<>>, 0,
                    IF p = "fin" THEN "created" ELSE IF p \in {"failed", "refused"} THEN p ELSE "running", code)
-   /\ donebk' = (IF p = "fin" /\ donebk = None THEN <<bk', lock'>> ELSE donebk)
+   /\ donebk' = (IF p = "fin" /\ donebk = <<>> THEN <<bk', lock'>> ELSE donebk)
 Log(arg) == hist' = Append(hist, [op |-> lastop'.op, t |-> lastop'.t, o |-> lastop'.o, arg |-> arg,
                                    res |-> lastop'.res, code |-> lastop'.code,
                                    data |-> data', bk |-> bk', lock |-> lock', dirs |-> dirs',
@@ -136,7 +136,7 @@ Init == /\ tree \in Trees
         /\ snap = [i \in 1..Len(tree.files) |-> Absent]
         /\ lock = [k |-> -1, rec |-> <<>>]
         /\ dirs = {} /\ pc = "idle" /\ sel = <<>> /\ fi = 1 /\ wr = 0 /\ mem = <<>>
-        /\ donebk = None /\ crashes = 0 /\ creates = 0 /\ nops = 0 /\ nmod = 0
+        /\ donebk = <<>> /\ crashes = 0 /\ creates = 0 /\ nops = 0 /\ nmod = 0
         /\ lastop = NoOp /\ prevop = NoOp /\ pre = data /\ hist = <<>>
 
 \* a run of run_remodel_backup.main starts: walk the tree, construct the manager (up to its first mkdir)
@@ -286,10 +286,13 @@ Remodel(T, o) == /\ CanOp
                  /\ UNCHANGED <<tree, bk, lock, pc, sel, fi, wr, mem, snap, donebk, crashes, creates, nmod>>
                  /\ Log(<<>>)
 
+ModifyAny == \E i \in Idx : Modify(i)
+DeleteAny == \E i \in Idx : Delete(i)
+RestoreAny == \E T \in TaskArgs : Restore(T)
+RemodelAny == \E T \in TaskArgs, o \in OpsIds : Remodel(T, o)
 Next == \/ Start \/ MkBk \/ MkRoot \/ MkDir \/ CopyOpen \/ CopyWrite \/ CopyMeta
         \/ LockOpen \/ LockWrite \/ LockClose \/ Crash \/ Reopen
-        \/ \E i \in Idx : Modify(i) \/ Delete(i)
-        \/ \E T \in TaskArgs : Restore(T) \/ \E o \in OpsIds : Remodel(T, o)
+        \/ ModifyAny \/ DeleteAny \/ RestoreAny \/ RemodelAny
 Spec == Init /\ [][Next]_vars
 
 ----------------------------------------------------------------------
@@ -301,12 +304,12 @@ TypeOK == /\ \A i \in Idx : IsCont(data[i]) /\ IsCont(bk[i])
 \* whenever the manager would list the backup, every recorded file is present, complete and the content backed up
 NeverHalfValid == Listed => \A i \in Range(Now.rec) : bk[i].k = Chunks /\ bk[i] = snap[i]
 \* once created, a backup never changes, whatever runs afterwards (incl. creating again under the same name)
-NoOverwrite == donebk # None => <<bk, lock>> = donebk
-CreatedIsListed == donebk # None => Listed
+NoOverwrite == donebk # <<>> => <<bk, lock>> = donebk
+CreatedIsListed == donebk # <<>> => Listed
 \* restoring everything gives back the backed-up bytes, whatever happened to the data files
 RestoreIdentity == lastop.op = "restore" /\ lastop.res = "ok" /\ lastop.t = <<>>
                       => \A i \in Range(Now.rec) : data[i] = snap[i] /\ data[i].k = Chunks
-RestoreWorks == lastop.op = "restore" /\ donebk # None /\ Now.rec # <<>> => lastop.res = "ok"
+RestoreWorks == lastop.op = "restore" /\ donebk # <<>> /\ Now.rec # <<>> => lastop.res = "ok"
 \* restoring tasks touches only files of those tasks (either spelling of the task in the name), and only recorded ones
 OfTask(i, T) == F(i).tk \in Range(T)
 RestoreTasksOnlyThose == lastop.op = "restore" /\ lastop.t # <<>>
